@@ -17,6 +17,7 @@ RULES = [
     Rule('C19.R1', 'every state effect of a SysEx handler is dominated by device match + exact payload size (+ Roland checksum)', 8),
     Rule('C19.R2', 'acceptance <=> effect: return true only after an effect, no rejecting return after an effect', 8),
     Rule('C19.R3', 'payload reads stay inside the message (remaining-size discipline)', 15),
+    Rule('C19.R4', 'the sequencer hands a SysEx event over with the status byte it read; every 4-bit device id can be selected', 2),
 ]
 EXPLANATION = ('Static CFG analysis of OPNMIDIplay::realTime_SysEx and the handlers it dispatches to: for every statement that '
                'changes player/synth state the set of dominating branch conditions (edge-split dominators, single-definition locals '
@@ -433,4 +434,52 @@ def analyse(facts, tier):
         for (loc, construct, needv, have, ok) in r3:
             obls.append(Obl('C19.R3', h.name, construct, loc, 'discharged' if ok else 'finding',
                             why='needs %s, have %s' % (needv, have), detail={'need': str(needv), 'have': str(have), 'entry_state': 'size>=%d, avail=size%+d' % es}))
+    obls += r4_frame_and_id(facts)
     return obls
+
+
+
+def r4_frame_and_id(facts):
+    """(a) framing is judged on the bytes of the file: in the SysEx branch of parseEvent the first byte stored into the event is the status
+    byte that was read (F0 or the F7 escape), not a constant — otherwise an F7 escape event is turned into an F0-framed message.
+    (b) handlers compare the low nibble of the device byte with the configured id, so the setter must accept exactly 0..15."""
+    from ..e2 import Engine2
+    out = []
+    pe = None
+    for nm in ('OpnMidiSequencer::parseEvent', 'BW_MidiSequencer::parseEvent'):
+        if facts.fns.get(nm):
+            pe = facts.fn(nm)
+    if pe is not None:
+        first = None
+        for b, j, st in pe.cfg.stmts():
+            gf = guard_facts(pe, b, st)
+            in_sysex = any(f[0] == 'or' and 'T_SYSEX' in fact_str(f) for f in gf) or any('T_SYSEX' in fact_str(f) and f[0] == 'cmp' and f[1] == '==' for f in gf)
+            if not in_sysex:
+                continue
+            for x in calls_in(st['s']):
+                if short(callee_name(x)) == 'push_back' and x.get('obj') is not None and short(strip(x['obj']).get('n', '')) == 'data' and first is None:
+                    first = (st, x)
+        if first is None:
+            raise build.AnalysisBroken('C19.R4: the first push_back of the SysEx branch of parseEvent was not found')
+        a = strip(first[1]['a'][0])
+        # the status byte local: the one compared with T_SYSEX in the guard
+        okb = a.get('k') == 'DeclRefExpr' and not a.get('parm') and any(('%s == T_SYSEX' % short(a['n'])) in fact_str(f) for f in guard_facts(pe, [b for b, j, st in pe.cfg.stmts() if st is first[0]][0], first[0]))
+        out.append(Obl('C19.R4', pe.name, 'first byte of a SysEx event = status byte read', first[0]['loc'], 'discharged' if okb else 'finding',
+                       why='data.push_back(%s): the byte that was compared with T_SYSEX / T_SYSEX2' % show(a) if okb else
+                       'the event is given %s as its first byte instead of the status byte read from the file: an F7 escape event reaches the SysEx handlers framed as F0' % show(a)))
+    sd = facts.fn('opn2_setDeviceIdentifier')
+    eng = Engine2(facts, {}, {}, {})
+    vals = []
+    def hook(eng, e, st):
+        for x in calls_in(e):
+            if short(callee_name(x)) == 'setDeviceId' and x.get('a'):
+                vals.append((x.get('ln'), eng.ev(x['a'][0], st)))
+    eng.value_hooks.append(hook)
+    eng.run(sd, record=True)
+    if not vals:
+        raise build.AnalysisBroken('C19.R4: setDeviceId call of opn2_setDeviceIdentifier not reached')
+    for ln, v in vals:
+        ok = v is not None and v.lo == 0 and v.hi == 15
+        out.append(Obl('C19.R4', sd.name, 'accepted device ids', '%s:%s' % (sd.file, ln), 'discharged' if ok else 'finding',
+                       why='exactly 0..15' if ok else 'the setter accepts %s, the handlers match the 4-bit ids 0..15: an id outside the accepted set cannot be selected (the previous id stays in force), an id above 15 can never match' % v))
+    return out
